@@ -2,7 +2,7 @@
 #pragma once
 #include "core.h"
 
-enum Kind { K_NONE, K_FIX, K_I8, K_I16, K_I32, K_I64, K_U8, K_U16, K_U32, K_U64, K_LL, K_ULL, K_F32, K_F64, K_SHIFT, K_ANGLE, K_IDX361, K_IDX256, K_COUNT };
+enum Kind { K_NONE, K_FIX, K_I8, K_I16, K_I32, K_I64, K_U8, K_U16, K_U32, K_U64, K_LL, K_ULL, K_F32, K_F64, K_SHIFT, K_ANGLE, K_IDX361, K_IDX256, K_COUNT, K_I128 };
 struct Domain { Kind a, b; };
 // false: not a library entry point (harness helper) or unknown name
 bool entry_domain(const std::string & name, Domain & d);
@@ -14,3 +14,5 @@ int64_t random_of_kind(Rng & r, Kind k);
 bool in_domain(Kind k, int64_t x);
 // second operand related to the first (sum / product / quotient frontiers); only meaningful for (K_FIX,K_FIX)
 int64_t related_fix(Rng & r, int64_t a);
+// all divisors of n (n < 2^64), by trial division + Pollard rho: exact factor pairs (d, n/d) of frontier constants
+std::vector<uint64_t> divisors_of(uint64_t n);
